@@ -40,6 +40,9 @@ func ruleOptionProbes(c *Ctx, rel string, floor int) {
 		if fi.Decl.Recv != nil || fi.Decl.Body == nil {
 			continue
 		}
+		if optionParserFuncs[fi.Obj] != nil {
+			continue // answers several probes in one pass (verified and folded by foldprobes.go)
+		}
 		sig := fi.Obj.Type().(*types.Signature)
 		if sig.Params().Len() != 1 || sig.Results().Len() != 1 {
 			continue
@@ -74,6 +77,22 @@ func ruleOptionProbes(c *Ctx, rel string, floor int) {
 			}
 		}
 		if loop == nil {
+			// a wrapper that hands the question to another probe (a generic one, folded by foldprobes.go)
+			if typ, bad, isDel := delegatingProbe(c, fi); isDel {
+				n++
+				c.Sites++
+				if bad == "" {
+					pr.typ = typ
+					if byIface[pr.iface] == nil {
+						byIface[pr.iface] = map[string]string{}
+					}
+					if other, dup := byIface[pr.iface][pr.typ]; dup {
+						bad = fmt.Sprintf("%s and %s both look for *%s among %s options: one option switches two mechanisms and the other mechanism's own option is never seen", other, fi.Obj.Name(), pr.typ, pr.iface)
+					}
+					byIface[pr.iface][pr.typ] = fi.Obj.Name()
+				}
+				c.check(bad == "", rule, fi.Name, "answers positively iff its own option is present", c.P.pos(fi.Decl.Pos()), fmt.Sprintf("hands the question for *%s to the generic probe and answers as it does", typ), bad)
+			}
 			continue // not a probe (some other function over an option slice)
 		}
 		n++
@@ -173,8 +192,17 @@ func ruleOptionProbes(c *Ctx, rel string, floor int) {
 		}
 		c.check(bad == "", rule, fi.Name, "answers positively iff its own option is present", c.P.pos(fi.Decl.Pos()), fmt.Sprintf("looks for *%s among []%s", pr.typ, pr.iface), bad)
 	}
+	// probes written in line in their caller (folded into a call by foldprobes.go): the loop answers
+	// positively iff its own option is present by construction of the fold
+	var folded []string
+	for k, cnt := range foldedProbeSites[rel] {
+		folded = append(folded, fmt.Sprintf("%s (%d in-line)", k, cnt))
+		n++
+	}
+	sort.Strings(folded)
 	c.floor(rule, "option probes of package "+rel, n, floor)
 	var tbl []string
+	tbl = append(tbl, folded...)
 	for _, pr := range probes {
 		if pr.typ != "" {
 			tbl = append(tbl, pr.fi.Obj.Name()+"→*"+pr.typ)
@@ -221,6 +249,16 @@ func probeTable(c *Ctx, rel string) map[*types.Func]string {
 		})
 		if len(ts) == 1 {
 			out[fi.Obj] = ts[0]
+		}
+		if len(ts) == 0 {
+			if call := delegatedCall(info, fi); call != nil {
+				out[fi.Obj] = foldedProbes[calleeObj(info, call).(*types.Func)]
+			}
+		}
+	}
+	for f, t := range foldedProbes {
+		if f.Pkg() == pk.Types {
+			out[f] = t
 		}
 	}
 	return out
@@ -380,4 +418,307 @@ func ruleServerWiring(c *Ctx, which []string) {
 				fmt.Sprintf("%s is performed under %v, want only under the positive answer of the probe for *%s (option %s): another option switches this mechanism, or it is switched unconditionally", eff, got[eff], t, ctor))
 		}
 	}
+}
+
+// RIB-WIRING — rib.New and rib.NewRIBHolder turn each option into its effect, and
+// nothing else does. Decision table over the answers of the probes for the option
+// types returned by the exported constructors (DisableRIBCheckFn,
+// DisableForwardReferences, RIBHolderCheckFn); the probe looked at is found through
+// the option type, not by name:
+//
+//	New:          RIBHolderCheckFn passed and RIB.ribCheck set     iff DisableRIBCheckFn absent
+//	              DisableForwardReferences passed and
+//	              RIB.disableForwardReferences set                 iff DisableForwardReferences present
+//	NewRIBHolder: RIBHolder.checkFn set                            iff RIBHolderCheckFn present
+//	              RIBHolder.disableForwardRef set                  iff DisableForwardReferences present
+func ruleRIBWiring(c *Ctx) {
+	const rule = "RIB-WIRING"
+	pk := c.P.pkg("rib")
+	if pk == nil {
+		c.vanished(rule, "rib", "package", "package not loaded")
+		return
+	}
+	ctorType := func(name string) string {
+		if g := c.P.Func("rib", "", name); g != nil {
+			rs := g.Obj.Type().(*types.Signature).Results()
+			if rs.Len() == 1 {
+				if nt := namedOf(rs.At(0).Type()); nt != nil {
+					return nt.Obj().Name()
+				}
+			}
+		}
+		c.vanished(rule, "rib."+name, "constructor", "no exported option constructor "+name+" in package rib")
+		return ""
+	}
+	tDC, tDF, tCF := ctorType("DisableRIBCheckFn"), ctorType("DisableForwardReferences"), ctorType("RIBHolderCheckFn")
+	if tDC == "" || tDF == "" || tCF == "" {
+		return
+	}
+	probes := probeTable(c, "rib")
+	// atom of the probe for option type typ among the options of fi (the element type of its variadic parameter)
+	atomFor := func(fi *FuncInfo, typ string) string {
+		sig := fi.Obj.Type().(*types.Signature)
+		if sig.Params().Len() == 0 {
+			return ""
+		}
+		pt := sig.Params().At(sig.Params().Len() - 1).Type()
+		var names []string
+		for f, t := range probes {
+			fs := f.Type().(*types.Signature)
+			if t != typ || fs.Params().Len() != 1 || !types.Identical(fs.Params().At(0).Type(), pt) {
+				continue
+			}
+			if b, ok := fs.Results().At(0).Type().Underlying().(*types.Basic); ok && b.Kind() == types.Bool {
+				names = append(names, "b:call:"+f.Name()+"#1")
+			} else {
+				names = append(names, "¬"+eqAtom("call:"+f.Name()+"#1", "nil"))
+			}
+		}
+		sort.Strings(names)
+		if len(names) == 0 {
+			return ""
+		}
+		return names[0]
+	}
+	type row struct {
+		typ  string
+		when bool // effects happen when the option is present (true) / absent (false)
+		effs []string
+	}
+	run := func(fi *FuncInfo, recvT string, rows []row) {
+		info := fi.Pkg.TypesInfo
+		atoms := map[string]int{}
+		var rowAtoms []string
+		for _, r := range rows {
+			a := atomFor(fi, r.typ)
+			if a == "" {
+				c.fail(rule, fi.Name, "option *"+r.typ+" is looked for", c.P.pos(fi.Decl.Pos()), "no probe looks for *"+r.typ+" among the options of "+fi.Name+": the option is accepted and ignored")
+				return
+			}
+			rowAtoms = append(rowAtoms, a)
+			atoms[strings.TrimPrefix(a, "¬")] = 2
+		}
+		var pe *pathEnum
+		ev := func(n ast.Node) []Event {
+			var out []Event
+			switch x := n.(type) {
+			case *ast.AssignStmt:
+				for i, l := range x.Lhs {
+					se, ok := ast.Unparen(l).(*ast.SelectorExpr)
+					if !ok {
+						continue
+					}
+					if fv, ok := info.ObjectOf(se.Sel).(*types.Var); ok && fv.IsField() && fieldOwner(fv) == recvT && len(x.Rhs) == len(x.Lhs) {
+						out = append(out, Event{Kind: "store:" + fv.Name(), Node: x.Rhs[i]})
+					}
+				}
+				// opts = append(opts, Ctor(…))
+				if len(x.Rhs) == 1 {
+					if call, ok := ast.Unparen(x.Rhs[0]).(*ast.CallExpr); ok {
+						if id, ok := call.Fun.(*ast.Ident); ok && id.Name == "append" {
+							for _, a := range call.Args[1:] {
+								if ac, ok := ast.Unparen(a).(*ast.CallExpr); ok {
+									if f, ok := calleeObj(info, ac).(*types.Func); ok && f.Pkg() == pk.Types && f.Exported() {
+										out = append(out, Event{Kind: "pass:" + f.Name(), Node: ac})
+									}
+								}
+							}
+						}
+					}
+				}
+			case *ast.KeyValueExpr:
+				if k, ok := x.Key.(*ast.Ident); ok {
+					if fv, ok := info.ObjectOf(k).(*types.Var); ok && fv.IsField() && fieldOwner(fv) == recvT {
+						out = append(out, Event{Kind: "store:" + fv.Name(), Node: x.Value})
+					}
+				}
+			}
+			return out
+		}
+		watched := map[string]bool{}
+		for _, r := range rows {
+			for _, e := range r.effs {
+				watched[e] = true
+			}
+		}
+		outcome := func(p Path) string {
+			set := map[string]bool{}
+			for _, e := range p.Events {
+				k := e.Kind
+				if strings.HasPrefix(k, "store:") {
+					if !watched[k] {
+						continue
+					}
+					rhs, _ := e.Node.(ast.Expr)
+					if rhs == nil || pe == nil {
+						k += "=?"
+					} else if tv, ok := info.Types[rhs]; ok && tv.Type != nil && isBoolType(tv.Type) {
+						f := pe.xlatP(&p).formula(rhs)
+						switch {
+						case p.Entails(f):
+						case p.Entails(fnot(f)):
+							continue // the zero value of a fresh structure
+						default:
+							k += "=?"
+						}
+					} else if isNilIdent(info, rhs) {
+						continue
+					}
+				} else if !watched[k] {
+					k = "other-" + k
+				}
+				set[k] = true
+			}
+			var l []string
+			for k := range set {
+				l = append(l, k)
+			}
+			sort.Strings(l)
+			return "effects[" + strings.Join(l, ",") + "]"
+		}
+		runTable(c, tableSpec{
+			Rule: rule, Fn: fi, Construct: "option → effect", Events: ev, Outcome: outcome, PE: &pe, LinkFields: true,
+			Atoms: atoms,
+			Expected: func(v *Valuation) (string, bool) {
+				var l []string
+				for i, r := range rows {
+					a := rowAtoms[i]
+					present := v.B(strings.TrimPrefix(a, "¬"))
+					if strings.HasPrefix(a, "¬") {
+						present = !present
+					}
+					if present == r.when {
+						l = append(l, r.effs...)
+					}
+				}
+				sort.Strings(l)
+				return "effects[" + strings.Join(l, ",") + "]", true
+			},
+		})
+	}
+	if fi := c.need("rib", "", "New"); fi != nil {
+		run(fi, "RIB", []row{
+			{tDC, false, []string{"pass:RIBHolderCheckFn", "store:ribCheck"}},
+			{tDF, true, []string{"pass:DisableForwardReferences", "store:disableForwardReferences"}},
+		})
+	}
+	if fi := c.need("rib", "", "NewRIBHolder"); fi != nil {
+		run(fi, "RIBHolder", []row{
+			{tCF, true, []string{"store:checkFn"}},
+			{tDF, true, []string{"store:disableForwardRef"}},
+		})
+	}
+}
+
+func isBoolType(t types.Type) bool {
+	b, ok := t.Underlying().(*types.Basic)
+	return ok && b.Kind() == types.Bool
+}
+
+// delegatedCall: the single call of fi (a function of one option-slice parameter and one result, without loops) to a
+// folded probe, with fi's own parameter as the argument; nil when fi is not of that shape.
+func delegatedCall(info *types.Info, fi *FuncInfo) *ast.CallExpr {
+	sig := fi.Obj.Type().(*types.Signature)
+	if fi.Decl.Recv != nil || fi.Decl.Body == nil || sig.Params().Len() != 1 || sig.Results().Len() != 1 {
+		return nil
+	}
+	ps := paramObjs(info, fi.Decl)
+	if len(ps) != 1 {
+		return nil
+	}
+	var found *ast.CallExpr
+	ok := true
+	ast.Inspect(fi.Decl.Body, func(m ast.Node) bool {
+		switch x := m.(type) {
+		case *ast.ForStmt, *ast.RangeStmt, *ast.GoStmt, *ast.DeferStmt, *ast.FuncLit:
+			ok = false
+		case *ast.CallExpr:
+			f, isF := calleeObj(info, x).(*types.Func)
+			if !isF {
+				if _, isB := calleeObj(info, x).(*types.Builtin); !isB {
+					if tv, okT := info.Types[x.Fun]; !okT || !tv.IsType() {
+						ok = false
+					}
+				}
+				return true
+			}
+			if _, isProbe := foldedProbes[f]; isProbe && len(x.Args) == 1 && objOfIdent(info, x.Args[0]) == ps[0] && found == nil {
+				found = x
+			} else {
+				ok = false
+			}
+		}
+		return true
+	})
+	if !ok {
+		return nil
+	}
+	return found
+}
+
+// delegatingProbe decides whether fi answers exactly as the probe it calls: positively (true, the matched option or a
+// field of it) on the paths where that probe answered positively, negatively (false, nil) on the others.
+func delegatingProbe(c *Ctx, fi *FuncInfo) (typ, bad string, is bool) {
+	info := fi.Pkg.TypesInfo
+	call := delegatedCall(info, fi)
+	if call == nil {
+		return "", "", false
+	}
+	callee := calleeObj(info, call).(*types.Func)
+	typ = foldedProbes[callee]
+	paths, pe := enumFunc(fi, func(ast.Node) []Event { return nil }, nil)
+	if pe.overflow || len(pe.unsup) > 0 || len(paths) == 0 {
+		return typ, "path enumeration incomplete", true
+	}
+	name := pe.callOrd[call]
+	var A Formula
+	valueProbe := !isBoolType(callee.Type().(*types.Signature).Results().At(0).Type())
+	if valueProbe {
+		A = fnot(eqF(name, "nil"))
+	} else {
+		A = &FLit{"b:" + name, 2, 2}
+	}
+	implies := func(a, b Formula) Formula { return fnot(fand(a, fnot(b))) }
+	// the local holding the probe's answer
+	var ansObj types.Object
+	ast.Inspect(fi.Decl.Body, func(m ast.Node) bool {
+		if as, ok := m.(*ast.AssignStmt); ok && len(as.Rhs) == 1 && ast.Unparen(as.Rhs[0]) == ast.Expr(call) && len(as.Lhs) == 1 {
+			ansObj = objOfIdent(info, as.Lhs[0])
+		}
+		return true
+	})
+	for _, p := range paths {
+		if p.End == "panic" {
+			continue
+		}
+		rs, ok := p.EndNode.(*ast.ReturnStmt)
+		if !ok || len(rs.Results) != 1 {
+			return typ, "a path leaves the probe without returning a value: " + p.describe(c.P), true
+		}
+		r := ast.Unparen(rs.Results[0])
+		if r == ast.Expr(call) {
+			continue // returns the probe's own answer
+		}
+		if tv, ok := info.Types[r]; ok && tv.Type != nil && isBoolType(tv.Type) {
+			f := pe.xlatP(&p).formula(r)
+			if !p.Entails(implies(A, f)) || !p.Entails(implies(fnot(A), fnot(f))) {
+				return typ, "the answer " + types.ExprString(r) + " is not the answer of the probe it consults: " + p.describe(c.P), true
+			}
+			continue
+		}
+		switch {
+		case isNilIdent(info, r):
+			if !p.Entails(fnot(A)) {
+				return typ, "the probe answers negatively on a path where the option may have been matched: " + p.describe(c.P), true
+			}
+		case ansObj != nil && objOfIdent(info, r) == ansObj:
+			// the matched option itself (nil when absent)
+		default:
+			o, _ := selectorPath(info, r)
+			if o == nil || o != ansObj || !p.Entails(A) {
+				return typ, "the probe answers with " + types.ExprString(r) + " on a path where the option was not matched, or not with (a field of) the matched option: " + p.describe(c.P), true
+			}
+		}
+	}
+	return typ, "", true
 }
